@@ -221,6 +221,10 @@ def alias_rule(chk, db):
         chk.analysis_broken("ALIAS: only %d members take the element by const reference (floor 5)" % n)
 
 
+META_EXTRA = 'ALIAS (value parameter read before elements are shifted); SLOTS-W (grown slots are written).'
+META = (META[0] + " " + META_EXTRA, META[1])
+
+
 def run(chk, tier):
     db = D.load("checks")
     cap_rule(chk, db)
